@@ -75,9 +75,10 @@ def iter_chain(t):
 
 
 def strip_mut(t):
-    # like strip but does not look through into_iter (it is recorded as an adapter)
-    while t[0] in ("ref", "deref"):
-        t = t[1]
+    # like strip but does not look through into_iter (it is recorded as an adapter);
+    # iterator temporaries are `mut`-marked (consumed through &mut) - look through the marker
+    while t[0] in ("ref", "deref", "mut"):
+        t = t[1] if t[0] != "mut" else t[2]
     return t
 
 
